@@ -11,6 +11,8 @@ package main
 import (
 	"encoding/json"
 	"fmt"
+	"syscall"
+	"time"
 
 	"verifmc/internal/ev"
 )
@@ -26,12 +28,28 @@ func main() {
 			json.Unmarshal(c.Replay, &w)
 			fmt.Println("C25 replay: re-running the full quick check is the replay for this witness:", w)
 		}
-		recordLevel(c)
-		paddingLevel(c)
-		connLevel(c)
+		phase := func(name string, f func(*ev.Ctx)) {
+			t0, c0 := time.Now(), cpuSeconds()
+			f(c)
+			c.Set("phase_"+name, fmt.Sprintf("wall %.1fs cpu %.1fs", time.Since(t0).Seconds(), cpuSeconds()-c0)) // informational only
+		}
+		phase("record", recordLevel)
+		phase("seal", sealLevel)
+		phase("padding", paddingLevel)
+		phase("connection", connLevel)
+		profStop()
 		c.Evaluations.Store(c.Transitions.Load())
 		if c.Distinct.Load() == 0 {
 			c.Distinct.Store(c.States.Load())
 		}
 	})
+}
+
+func cpuSeconds() float64 {
+	var ru syscall.Rusage
+	if syscall.Getrusage(syscall.RUSAGE_SELF, &ru) != nil {
+		return 0
+	}
+	tv := func(t syscall.Timeval) float64 { return float64(t.Sec) + float64(t.Usec)/1e6 }
+	return tv(ru.Utime) + tv(ru.Stime)
 }
